@@ -393,6 +393,35 @@ def spw_cases(ctx, n):
             except Exception as e:   # noqa: BLE001
                 what = f'select(spw={spw}, freqrange=...) raised {type(e).__name__}: {str(e)[:100]}'
                 break
+            if what is None and rng.random() < 0.6:
+                # a product criterion (or an explicit reset naming B) in the call that switches window replaces /
+                # clears the product selection made under the other window, as it would without the switch
+                other = 1 - spw
+                try:
+                    d.select(spw=other)
+                    d.select(pol='h')
+                    narrowed = stubds.masks_of(d)[2]
+                    if rng.random() < 0.5:
+                        d.select(spw=spw, pol='v')
+                        label = f"select(pol='h') then select(spw={spw}, pol='v')"
+                        d2, _t2 = stubds.build(obs)
+                        d2.select(pol='v')
+                        want_b = stubds.masks_of(d2)[2]
+                    else:
+                        d.select(spw=spw, reset='B')
+                        label = f"select(pol='h') then select(spw={spw}, reset='B')"
+                        want_b = '1' * len(narrowed)
+                    got_b = stubds.masks_of(d)[2]
+                    if got_b != want_b:
+                        what = (f'{label}: correlation products {got_b}, the criteria of the most recent call that '
+                                f'mentioned that dimension give {want_b} (before the call: {narrowed})')
+                    d.select(spw=spw, freqrange=kw['freqrange'])
+                    d.select(pol='h')
+                    ctx.tag('spw-switch-with-product-criterion')
+                except Exception as e:   # noqa: BLE001
+                    what = f'switching window together with a product criterion raised {type(e).__name__}: {str(e)[:100]}'
+                if what:
+                    break
             if got[1] != want_f:
                 what = (f'select(spw={spw}, freqrange=({float(lo)}, {float(hi)})) in one call keeps channels {got[1]}, the '
                         f'channels of window {spw} wholly inside the range are {want_f}')
